@@ -110,6 +110,24 @@ class C13(Prop):
             evs.append(["q", "counters"])
             out.append(Case("multi", "threads" if rng.random() < 0.3 else "local", [("pipe", [pipe])], evs,
                             {"kind": "hot"}))
+        # targeted: SEVERAL `tap`s whose call counts differ (an operator between them drops items; one tap on each
+        # side of a two-input operator): the counter list is compared in construction order, which a single tap
+        # or equal counts cannot pin down (model: `Node.taps`; found unexercised by tools/model_mutants.py)
+        def created(vals, term="c"):
+            return ["create"] + [sx.N(v) for v in vals] + ([term] if term else [])
+        multi_tap = []
+        for mid in (["take", "1"], ["skip", "1"], ["filter", "even"], ["takelast", "1"], ["first"], ["distinct"]):
+            multi_tap.append(["tap"] + [mid + [["tap", created([1, 2, 2, 3])]]])
+            multi_tap.append(["tap"] + [["map", "add1", mid + [["tap", ["skip", "1", ["tap", created([1, 2, 2, 3])]]]]]])
+        for k in pg.TWO:
+            multi_tap.append([k, ["tap", created([1, 2, 3])], ["tap", created([7])]])
+            multi_tap.append([k, ["tap", created([7], None)], ["tap", ["take", "2", ["tap", created([1, 2, 3])]]]])
+            multi_tap.append(["tap", [k, ["take", "1", ["tap", created([1, 2])]], ["tap", created([7, 8, 9])]]])
+        for pipe in multi_tap:
+            for fl in ("local", "threads"):
+                out.append(Case("multi", fl, [("pipe", [pipe])],
+                                [["q", "counters"], ["sub"], ["q", "counters"], ["sub"], ["q", "counters"]],
+                                {"kind": "multi-tap"}))
         # targeted: ONE stateful operator over hot inputs, subscriptions of clones ALIVE TOGETHER (a later
         # subscription, or an event of one subscription's second input, must not disturb the state another
         # subscription has built up: flags, queues, counters created per subscription, not per operator value)
